@@ -1,4 +1,409 @@
 import ZV.Model.C05
 import ZV.Proofs.C04
+import ZV.Proofs.C04Ext
+/-! Lemmas for C05: INTEGER / ENUMERATED contents of any size, the revocation time, the entry-extension codec, the
+    reason scan lifted from OID arcs to content octets, and the entry / entry-list round trips. -/
 namespace ZV.C05
+open ZV ZV.Der ZV.C06 ZV.C04
+
+theorem encBigInt_eq (v : Int) :
+    encBigInt v = beBytes (intLen (v.natAbs.log2 + 2) v) (twos (intLen (v.natAbs.log2 + 2) v) v) := rfl
+
+theorem bigint_fits (v : Int) :
+    -(128 * (256 : Int) ^ (v.natAbs.log2 + 2)) ≤ v ∧ v < 128 * (256 : Int) ^ (v.natAbs.log2 + 2) := by
+  have h1 : v.natAbs < 2 ^ (v.natAbs.log2 + 1) := Nat.lt_log2_self
+  have h2 : 2 ^ (v.natAbs.log2 + 1) ≤ 2 ^ (8 * (v.natAbs.log2 + 2)) := Nat.pow_le_pow_right (by decide) (by omega)
+  have h3 : 2 ^ (8 * (v.natAbs.log2 + 2)) = 256 ^ (v.natAbs.log2 + 2) := by rw [Nat.pow_mul]
+  have h4 : (256 : Int) ^ (v.natAbs.log2 + 2) = ((256 ^ (v.natAbs.log2 + 2) : Nat) : Int) := by simp
+  rw [h4]
+  generalize 256 ^ (v.natAbs.log2 + 2) = P at *
+  omega
+
+/-- **`parseBigInt ∘ encBigInt = id` for EVERY integer** (serial numbers, ENUMERATED reason codes, CRL numbers). -/
+theorem parseBigInt_encBigInt (v : Int) : parseBigInt (encBigInt v) = .ok v := by
+  obtain ⟨h1, h2⟩ := bigint_fits v
+  obtain ⟨c1, c2, _⟩ := int_roundtrip (v.natAbs.log2 + 2) v h1 h2
+  rw [← encBigInt_eq] at c1 c2
+  simp [parseBigInt, c1, c2]
+
+theorem encBigInt_length (v : Int) : 1 ≤ (encBigInt v).length ∧ (encBigInt v).length ≤ v.natAbs.log2 + 3 := by
+  obtain ⟨h1, h2⟩ := bigint_fits v
+  obtain ⟨k, hk, hkf, _⟩ := intLen_spec (v.natAbs.log2 + 2) v h1 h2
+  rw [encBigInt_eq, beBytes_length, hk]; omega
+
+/-! ### revocation time -/
+
+/-- 14 octets, the first four ASCII digits (the year; the remaining ten are copied verbatim by both sides) -/
+def validTime (t : Bytes) : Bool :=
+  t.length == 14 && (t.take 4).all (fun d => decide (48 ≤ d.toNat) && decide (d.toNat ≤ 57))
+
+theorem u8_eq (a : UInt8) (n : Nat) (hn : n < 256) (h : a.toNat = n) : a = UInt8.ofNat n := by
+  apply UInt8.toNat_inj.mp
+  rw [h, UInt8.toNat_ofNat']; omega
+
+theorem timeDigits_utc (body : Bytes) (h : body.length = 13) :
+    timeDigits (elemOf 0x17 body) = .ok ((if yearOf ([0x30, 0x30] ++ body.take 2) ≥ 50 then [0x31, 0x39] else [0x32, 0x30])
+      ++ body.take 12) := by
+  unfold timeDigits
+  rw [if_pos ⟨rfl, rfl, rfl, h⟩]
+  rfl
+
+theorem timeDigits_gen (body : Bytes) (h : body.length = 15) :
+    timeDigits (elemOf 0x18 body) = .ok (body.take 14) := by
+  unfold timeDigits
+  have hne : ¬ (hdrOf 0x18 body.length).tag = 23 := by simp [hdrOf]
+  rw [if_neg (fun hp => absurd hp.2.1 hne), if_pos ⟨rfl, rfl, rfl, h⟩]
+  rfl
+
+/-- the time element the encoder writes (`encTime t = writeTLV tag body`) is read back to `t` by `timeDigits`:
+    UTCTime for 1950..2049 with the century restored from the two-digit year, GeneralizedTime otherwise. -/
+theorem encTime_decode (t : Bytes) (h : validTime t = true) :
+    ∃ tag body, encTime t = writeTLV tag body ∧ tag.toNat % 32 ≠ 31 ∧ body.length ≤ 15 ∧
+      timeDigits (elemOf tag body) = .ok t := by
+  simp only [validTime, Bool.and_eq_true, beq_iff_eq] at h
+  obtain ⟨hl, hd⟩ := h
+  match t, hl with
+  | [a0, a1, a2, a3, a4, a5, a6, a7, a8, a9, a10, a11, a12, a13], _ =>
+    simp only [List.take, List.all_cons, List.all_nil, Bool.and_true, Bool.and_eq_true, decide_eq_true_eq] at hd
+    obtain ⟨⟨h0a, h0b⟩, ⟨h1a, h1b⟩, ⟨h2a, h2b⟩, ⟨h3a, h3b⟩⟩ := hd
+    unfold encTime
+    have hy : yearOf [a0, a1, a2, a3, a4, a5, a6, a7, a8, a9, a10, a11, a12, a13]
+        = (((0 * 10 + (a0.toNat - 48)) * 10 + (a1.toNat - 48)) * 10 + (a2.toNat - 48)) * 10 + (a3.toNat - 48) := by
+      simp [yearOf]
+    simp only [hy]
+    split
+    · rename_i hc
+      refine ⟨0x17, _, rfl, by decide, by simp, ?_⟩
+      have e0 : a0.toNat = 49 ∨ a0.toNat = 50 := by omega
+      have hyy : yearOf ([0x30, 0x30] ++ List.take 2 ([a2, a3, a4, a5, a6, a7, a8, a9, a10, a11, a12, a13] ++ [0x5a]))
+          = (a2.toNat - 48) * 10 + (a3.toNat - 48) := by
+        simp [yearOf]
+      rw [timeDigits_utc _ (by simp)]
+      simp only [List.drop, hyy]
+      rcases e0 with e0 | e0
+      · have e1 : a1.toNat = 57 := by omega
+        have : (a2.toNat - 48) * 10 + (a3.toNat - 48) ≥ 50 := by omega
+        rw [if_pos this, u8_eq a0 49 (by decide) e0, u8_eq a1 57 (by decide) e1]
+        rfl
+      · have e1 : a1.toNat = 48 := by omega
+        have : ¬ (a2.toNat - 48) * 10 + (a3.toNat - 48) ≥ 50 := by omega
+        rw [if_neg this, u8_eq a0 50 (by decide) e0, u8_eq a1 48 (by decide) e1]
+        rfl
+    · refine ⟨0x18, _, rfl, by decide, by simp, ?_⟩
+      rw [timeDigits_gen _ (by simp)]
+      rfl
+
+/-! ### entry extensions -/
+
+/-- content octets of the extension's OID ([] when `marshalObjectIdentifier` rejects it — then `encExtension` fails) -/
+def oidC (x : EExt) : Bytes := (encOID x.oid).getD []
+
+/-- the body of the `Extension` SEQUENCE -/
+def extBody (x : EExt) : Bytes :=
+  writeTLV 0x06 (oidC x) ++ (if x.critical then writeTLV 0x01 [0xff] else []) ++ writeTLV 0x04 x.value
+
+theorem encExtension_eq {x : EExt} {b : Bytes} (h : encExtension x = some b) :
+    encOID x.oid = some (oidC x) ∧ b = writeTLV 0x30 (extBody x) := by
+  unfold encExtension at h
+  cases ho : encOID x.oid with
+  | none => simp [ho] at h
+  | some o =>
+    simp only [ho, Option.some.injEq] at h
+    exact ⟨by simp [oidC, ho], by rw [← h]; simp [extBody, oidC, ho, tlv]⟩
+
+theorem mapM_some_map {α β} (f : α → Option β) (g : α → β) (P : α → Prop)
+    (hfg : ∀ a b, f a = some b → b = g a ∧ P a) :
+    ∀ (l : List α) (bs : List β), l.mapM f = some bs → bs = l.map g ∧ ∀ a ∈ l, P a := by
+  intro l
+  induction l with
+  | nil => intro bs h; simp at h; subst h; simp
+  | cons a l ih =>
+    intro bs h
+    rw [List.mapM_cons] at h
+    cases ha : f a with
+    | none => simp [ha] at h
+    | some b =>
+      cases hl : l.mapM f with
+      | none => simp [ha, hl] at h
+      | some r =>
+        simp [ha, hl] at h
+        subst h
+        obtain ⟨e1, p1⟩ := hfg a b ha
+        obtain ⟨e2, p2⟩ := ih r hl
+        refine ⟨by simp [e1, e2], ?_⟩
+        intro x hx
+        rcases List.mem_cons.mp hx with rfl | hx
+        · exact p1
+        · exact p2 x hx
+
+/-- `parseExtension` on a written extension -/
+theorem parseEExt_build (x : EExt) (hv : validOID (oidC x) = true) (hl : (extBody x).length < 2147483648) :
+    parseEExt (elemOf 0x30 (extBody x)) = .ok (oidC x, x.critical, x.value) := by
+  have h1 := writeTLV_length_ge 0x06 (oidC x)
+  have h2 := writeTLV_length_ge 0x04 x.value
+  unfold extBody at hl ⊢
+  simp only [List.length_append] at hl
+  unfold parseEExt
+  simp only [elemOf_body, List.append_assoc]
+  rw [field_tlv _ _ _ _ _ (by decide) (by omega) (by simp [Want.ok, hdrOf])]
+  simp only [someElem, Res.bind, elemOf_body, hv]
+  cases hc : x.critical
+  · simp only [Bool.false_eq_true, if_false, List.nil_append]
+    have := field_skip (.univ 1 false) 0x04 x.value [] (by decide) (by omega) (by simp [Want.ok, hdrOf])
+    simp only [List.append_nil] at this
+    rw [this]
+    simp only
+    rw [field_tlv_end _ _ _ _ (by decide) (by omega) (by simp [Want.ok, hdrOf])]
+    simp
+  · simp only [if_true]
+    rw [field_tlv _ _ _ _ _ (by decide) (by simp) (by simp [Want.ok, hdrOf])]
+    simp only [elemOf_body, parseBool]
+    rw [field_tlv_end _ _ _ _ (by decide) (by omega) (by simp [Want.ok, hdrOf])]
+    simp
+
+/-! ### the reason scan, lifted from OID arcs to content octets -/
+
+/-- abstract view of the parser's reason scan: the LAST reasonCode extension wins (each one overwrites). -/
+def scanReasonA : List EExt → Option Int → (EExt → Option Int) → Option Int
+  | [], acc, _ => acc
+  | x :: xs, acc, dec => if x.oid = reasonOID then scanReasonA xs (dec x) dec else scanReasonA xs acc dec
+
+/-- the model's own decoder of a reasonCode extension value -/
+def decM (x : EExt) : Option Int := match parseEnum x.value with | .ok n => some n | _ => none
+
+def roB : Bytes := [0x55, 0x1d, 0x15]
+theorem encOID_reason : encOID reasonOID = some roB := by decide
+theorem oidOk_reason : oidOk reasonOID = true := by decide
+
+def triple (x : EExt) : Bytes × Bool × Bytes := (oidC x, x.critical, x.value)
+
+/-- on extensions whose OIDs encode (and, unless they are reasonCode, are in the reader's domain), the byte-level scan
+    that compares content octets computes the arc-level scan with the model's ENUMERATED decoder. -/
+theorem scanReason_lift : ∀ (l : List EExt) (acc : Option Int),
+    (∀ x ∈ l, encOID x.oid = some (oidC x) ∧ (x.oid = reasonOID ∨ oidOk x.oid = true)) →
+    (∀ x ∈ l, x.oid = reasonOID → ∃ n, parseEnum x.value = .ok n) →
+    scanReason roB (l.map triple) acc = .ok (scanReasonA l acc decM) := by
+  intro l
+  induction l with
+  | nil => intro acc _ _; rfl
+  | cons x xs ih =>
+    intro acc h1 h2
+    obtain ⟨he, hd⟩ := h1 x List.mem_cons_self
+    have h1' := fun y hy => h1 y (List.mem_cons_of_mem _ hy)
+    have h2' := fun y hy => h2 y (List.mem_cons_of_mem _ hy)
+    simp only [List.map_cons, scanReason, scanReasonA, triple]
+    by_cases hx : x.oid = reasonOID
+    · have hc : oidC x = roB := by
+        rw [hx, encOID_reason] at he
+        exact (Option.some.inj he).symm
+      obtain ⟨n, hn⟩ := h2 x List.mem_cons_self hx
+      simp only [hc, hx, if_true, hn, decM]
+      exact ih (some n) h1' h2'
+    · have hc : oidC x ≠ roB := by
+        intro hc
+        rw [hc] at he
+        rcases hd with hd | hd
+        · exact hx hd
+        · exact hx (encOID_inj he encOID_reason hd oidOk_reason)
+      simp only [hc, hx, if_false]
+      exact ih acc h1' h2'
+
+/-- scanning the synthesised list with any decoder that reads back the synthesised value yields the normalised
+    `ReasonCode` -/
+theorem scanReasonA_synth (e : Entry) (dec : EExt → Option Int)
+    (hdec : ∀ n, normReason e.reason = some n → dec (reasonExt n) = some n) :
+    scanReasonA (synthExts e) none dec = normReason e.reason := by
+  have app : ∀ (l1 l2 : List EExt) (acc : Option Int), (∀ x ∈ l1, x.oid ≠ reasonOID) →
+      scanReasonA (l1 ++ l2) acc dec = scanReasonA l2 acc dec := by
+    intro l1
+    induction l1 with
+    | nil => intro l2 acc _; rfl
+    | cons x xs ih =>
+      intro l2 acc hx
+      have : x.oid ≠ reasonOID := hx x List.mem_cons_self
+      simp only [List.cons_append, scanReasonA, this, if_false]
+      exact ih l2 acc (fun y hy => hx y (List.mem_cons_of_mem _ hy))
+  unfold synthExts
+  rw [app _ _ _ (by intro x hx; have := (List.mem_filter.mp hx).2; simpa using this)]
+  cases h : normReason e.reason with
+  | none => rfl
+  | some n => simp [scanReasonA, reasonExt]; exact hdec n h
+
+/-- ENUMERATED round trip for EVERY integer reason code (the contents must fit a DER length, < 2^31 octets). -/
+theorem parseEnum_reasonExt (n : Int) (hl : (encBigInt n).length < 2147483648) :
+    parseEnum (reasonExt n).value = .ok n := by
+  unfold parseEnum reasonExt tlv
+  simp only
+  rw [field_tlv_end _ _ _ _ (by decide) hl (by simp [Want.ok, hdrOf])]
+  simp [someElem, Res.bind, parseBigInt_encBigInt]
+
+/-! ### entries -/
+
+/-- domain of the byte-level entry theorem (decidable): a well-formed 14-digit time whose year is four ASCII digits,
+    and extra extensions whose OIDs — other than reasonCode ones, which are dropped — are in the reader's domain. -/
+def Entry.ok (e : Entry) : Bool :=
+  validTime e.time && e.extras.all (fun x => x.oid == reasonOID || oidOk x.oid)
+
+/-- what the parser reports for an entry -/
+def Entry.parsed (e : Entry) : PEntry := ⟨e.serial, e.time, normReason e.reason, (synthExts e).length⟩
+
+def extsField (e : Entry) : Bytes :=
+  if (synthExts e).isEmpty then [] else writeTLV 0x30 (((synthExts e).map fun x => writeTLV 0x30 (extBody x)).flatten)
+
+/-- contents of the `RevokedCertificate` SEQUENCE -/
+def entryBody (e : Entry) : Bytes := writeTLV 0x02 (encBigInt e.serial) ++ (encTime e.time ++ extsField e)
+
+theorem encEntry_eq {e : Entry} {bs : Bytes} (h : encEntry e = some bs) :
+    bs = writeTLV 0x30 (entryBody e) ∧ ∀ x ∈ synthExts e, encOID x.oid = some (oidC x) := by
+  unfold encEntry at h
+  cases hm : (synthExts e).mapM encExtension with
+  | none => simp [hm] at h
+  | some xs =>
+    simp only [hm, Option.some.injEq] at h
+    obtain ⟨e1, p1⟩ := mapM_some_map encExtension (fun x => writeTLV 0x30 (extBody x))
+      (fun x => encOID x.oid = some (oidC x)) (fun a b hab => ⟨(encExtension_eq hab).2, (encExtension_eq hab).1⟩) _ _ hm
+    refine ⟨?_, p1⟩
+    rw [← h, e1]
+    simp [entryBody, extsField, tlv]
+
+theorem synth_mem (e : Entry) (x : EExt) (hx : x ∈ synthExts e) :
+    (x ∈ e.extras ∧ x.oid ≠ reasonOID) ∨ (∃ n, normReason e.reason = some n ∧ x = reasonExt n) := by
+  unfold synthExts at hx
+  rcases List.mem_append.mp hx with hx | hx
+  · left
+    have := List.mem_filter.mp hx
+    exact ⟨this.1, by simpa using this.2⟩
+  · right
+    cases hn : normReason e.reason with
+    | none => simp [hn] at hx
+    | some n => simp [hn] at hx; exact ⟨n, rfl, hx⟩
+
+theorem reason_len (n : Int) (N : Nat) (h : (extBody (reasonExt n)).length < N) : (encBigInt n).length < N := by
+  have h2 := writeTLV_length_ge 0x04 (writeTLV 0x0A (encBigInt n))
+  have h3 := writeTLV_length_ge 0x0A (encBigInt n)
+  have hv : (reasonExt n).value = writeTLV 0x0A (encBigInt n) := rfl
+  simp only [extBody, List.length_append, hv] at h
+  omega
+
+/-- **byte-level entry round trip (core)**: `parseEntry` on the element the encoder writes. -/
+theorem parseEntry_build (e : Entry) (henc : ∀ x ∈ synthExts e, encOID x.oid = some (oidC x))
+    (hok : e.ok = true) (hlen : (entryBody e).length < 2147483648) :
+    parseEntry (elemOf 0x30 (entryBody e)) = .ok e.parsed := by
+  simp only [Entry.ok, Bool.and_eq_true] at hok
+  obtain ⟨htime, hext⟩ := hok
+  obtain ⟨tag, tb, het, htag, htl, htd⟩ := encTime_decode e.time htime
+  have hS := writeTLV_length_ge 0x02 (encBigInt e.serial)
+  have hT := writeTLV_length_ge tag tb
+  unfold entryBody at hlen ⊢
+  rw [het] at hlen ⊢
+  simp only [List.length_append] at hlen
+  unfold parseEntry
+  simp only [elemOf_body]
+  rw [field_tlv _ _ _ _ _ (by decide) (by omega) (by simp [Want.ok, hdrOf])]
+  simp only [someElem, Res.bind, elemOf_body, parseBigInt_encBigInt]
+  rw [field_tlv _ _ _ _ _ htag (by omega) (by simp [Want.ok])]
+  simp only [htd]
+  -- the optional extensions field
+  have hoidok : ∀ x ∈ synthExts e, x.oid = reasonOID ∨ oidOk x.oid = true := by
+    intro x hx
+    rcases synth_mem e x hx with ⟨hm, _⟩ | ⟨n, _, rfl⟩
+    · have := List.all_eq_true.mp hext x hm
+      simpa using this
+    · left; rfl
+  unfold extsField at hlen ⊢
+  by_cases hemp : (synthExts e).isEmpty = true
+  · simp only [hemp, if_true, field_nil_opt]
+    have hnil : synthExts e = [] := by simpa using hemp
+    have hr : normReason e.reason = none := by
+      have := scanReasonA_synth e (fun x => decM x) (by
+        intro n hn
+        have : reasonExt n ∈ synthExts e := by simp [synthExts, hn]
+        rw [hnil] at this; cases this)
+      rw [hnil] at this
+      exact this.symm
+    simp [Entry.parsed, hnil, hr]
+  · simp only [hemp, Bool.false_eq_true, if_false] at hlen ⊢
+    have hX := writeTLV_length_ge 0x30 (((synthExts e).map fun x => writeTLV 0x30 (extBody x)).flatten)
+    obtain ⟨_, hel⟩ := tlvs_bounds 0x30 (fun x => writeTLV 0x30 (extBody x)) (synthExts e) 2147483648 (by omega)
+    have hbl : ∀ x ∈ synthExts e, (extBody x).length < 2147483648 := by
+      intro x hx
+      have := hel x hx
+      have := writeTLV_length_ge 0x30 (extBody x)
+      omega
+    rw [field_tlv_end _ _ _ _ (by decide) (by omega) (by simp [Want.ok, hdrOf])]
+    simp only [elemOf_body]
+    rw [readElems_writeTLVs (fun _ => 0x30) extBody (synthExts e) (fun x hx => ⟨by decide, hbl x hx⟩)]
+    simp only
+    have hall : ((synthExts e).map fun x => elemOf 0x30 (extBody x)).all (fun el => isSeqHdr el.hdr) = true := by
+      rw [List.all_eq_true]
+      intro el hel
+      obtain ⟨x, _, rfl⟩ := List.mem_map.mp hel
+      simp [isSeqHdr, hdrOf]
+    simp only [hall, Bool.not_true, Bool.false_eq_true, if_false]
+    rw [mapRes_map parseEExt (fun x => elemOf 0x30 (extBody x)) triple (synthExts e) (by
+      intro x hx
+      have hv : validOID (oidC x) = true := by
+        rcases hoidok x hx with h | h
+        · have := henc x hx
+          rw [h, encOID_reason] at this
+          rw [← Option.some.inj this]; decide
+        · exact validOID_encOID (henc x hx) h
+      exact parseEExt_build x hv (hbl x hx))]
+    simp only [encOID_reason]
+    rw [scanReason_lift (synthExts e) none (fun x hx => ⟨henc x hx, hoidok x hx⟩) (by
+      intro x hx ho
+      rcases synth_mem e x hx with ⟨_, hne⟩ | ⟨n, _, rfl⟩
+      · exact absurd ho hne
+      · exact ⟨n, parseEnum_reasonExt n (reason_len n _ (hbl _ hx))⟩)]
+    simp only
+    rw [scanReasonA_synth e decM (by
+      intro n hn
+      have hx : reasonExt n ∈ synthExts e := by simp [synthExts, hn]
+      simp only [decM, parseEnum_reasonExt n (reason_len n _ (hbl _ hx))])]
+    simp [Entry.parsed]
+
+/-- **byte-level entry round trip**: what `encEntry` writes is one element, and `parseEntry` maps it to the entry
+    (reason normalised, number of extensions = synthesised list). -/
+theorem parseEntry_encEntry (e : Entry) (bs : Bytes) (h : encEntry e = some bs) (hok : e.ok = true)
+    (hlen : bs.length < 2147483648) :
+    ∃ el, readElem bs = .ok (el, []) ∧ el.full = bs ∧ parseEntry el = .ok e.parsed := by
+  obtain ⟨hb, henc⟩ := encEntry_eq h
+  subst hb
+  have h1 := writeTLV_length_ge 0x30 (entryBody e)
+  refine ⟨elemOf 0x30 (entryBody e), ?_, rfl, parseEntry_build e henc hok (by omega)⟩
+  have := readElem_writeTLV 0x30 (entryBody e) [] (by decide) (by omega)
+  simp only [List.append_nil] at this
+  exact this
+
+/-- **list level**: `parseEntries (encEntries es) = es` (normalised), for every list of entries of the domain whose
+    individual encodings are shorter than 2^31 octets (the list as a whole may be longer). -/
+theorem parseEntries_encEntries (es : List Entry) (bs : Bytes) (h : encEntries es = some bs)
+    (hok : ∀ e ∈ es, e.ok = true) (hlen : ∀ e ∈ es, ∀ b, encEntry e = some b → b.length < 2147483648) :
+    parseEntries bs = .ok (es.map Entry.parsed) := by
+  unfold encEntries at h
+  cases hm : es.mapM encEntry with
+  | none => simp [hm] at h
+  | some bss =>
+    simp only [hm, Option.map_some, Option.some.injEq] at h
+    obtain ⟨e1, p1⟩ := mapM_some_map encEntry (fun e => writeTLV 0x30 (entryBody e))
+      (fun e => encEntry e = some (writeTLV 0x30 (entryBody e)) ∧ ∀ x ∈ synthExts e, encOID x.oid = some (oidC x))
+      (fun a b hab => ⟨(encEntry_eq hab).1, by rw [← (encEntry_eq hab).1]; exact hab, (encEntry_eq hab).2⟩) _ _ hm
+    subst e1; subst h
+    have hbl : ∀ e ∈ es, (entryBody e).length < 2147483648 := by
+      intro e he
+      have := hlen e he _ (p1 e he).1
+      have := writeTLV_length_ge 0x30 (entryBody e)
+      omega
+    unfold parseEntries
+    rw [readElems_writeTLVs (fun _ => 0x30) entryBody es (fun e he => ⟨by decide, hbl e he⟩)]
+    simp only [Res.bind]
+    have hall : (es.map fun e => elemOf 0x30 (entryBody e)).all (fun el => isSeqHdr el.hdr) = true := by
+      rw [List.all_eq_true]
+      intro el hel
+      obtain ⟨x, _, rfl⟩ := List.mem_map.mp hel
+      simp [isSeqHdr, hdrOf]
+    simp only [hall, Bool.not_true, Bool.false_eq_true, if_false]
+    exact mapRes_map parseEntry (fun e => elemOf 0x30 (entryBody e)) Entry.parsed es
+      (fun e he => parseEntry_build e (p1 e he).2 (hok e he) (hbl e he))
+
 end ZV.C05
